@@ -1247,6 +1247,43 @@ class Explorer:
             produce(s_i, alt, some)
         return True
 
+    def pairs_next(self, st, fr, b, t, cont):
+        """`for (a, b) in pts.iter().zip(&pts[1..])` / `.zip(pts.iter().skip(1))`: the items are the pairs of consecutive elements
+        (&pts[k], &pts[k+1]) (trusting std Zip / Skip / slice iterators).  The item is modelled as references to the `start` and
+        `end` of one symbolic segment, which is what `LineString::lines()` yields by value: code that walks a ring this way looks
+        to the rules like code that walks its lines."""
+        from facts import callee_name
+        if not self.inline or t.get('target') is None or fr is not self.top:
+            return False
+        name = callee_name(t)
+        if not re.match(r'^<std::iter::Zip<A, B> as std::iter::Iterator>::next$', name) or len(t['args']) != 1:
+            return False
+        a0 = strip_upd(self.operand(st, fr, t['args'][0]))
+        if not (a0[0] == 'ref' and a0[1][0][0] == 'loc' and a0[1][1] == ()):
+            return False
+        src = None
+        for e in reversed(st.path.events):
+            if e['k'] == 'loophead' and a0[1][0][2] in e.get('pre', {}):
+                src = e['pre'][a0[1][0][2]]
+                break
+        if src is None or consecutive_pairs_source(src) is None:
+            return False
+        ret = self.do_call(st, fr, b, t)
+        dest, target = t['dest'], t['target']
+        s_none = st.fork()
+        for (s_, cond) in ((s_none, ('eq', 0)), (st, ('eq', 1))):
+            dvv = ('discr', ret)
+            s_.path.conds.append((dvv, cond))
+            s_.path.events.append({'k': 'branch', 'val': dvv, 'cond': cond, 'bb': b, 'line': t['line'], 'depth': fr.evdepth})
+        self.store(s_none, self.loc_of(s_none, fr, dest), ('agg', 'adt', 'None', (), (), 'std::option::Option'))
+        self._run(s_none, target, fr, cont)
+        seg = ('field', ('variant', ret, 'Some'), '0')
+        item = ('agg', 'tuple', None, (), (('refval', ('field', seg, 'start')), ('refval', ('field', seg, 'end'))), 'tuple')
+        st.path.events.append({'k': 'item', 'of': name, 'alt': 0, 'kind': 'consecutive-pair', 'bb': b, 'line': t['line'], 'depth': fr.evdepth})
+        self.store(st, self.loc_of(st, fr, dest), ('agg', 'adt', 'Some', ('0',), (item,), 'std::option::Option'))
+        self._run(st, target, fr, cont)
+        return True
+
     def option_try(self, st, fr, t):
         """`opt?`: <Option<T> as Try>::branch(opt) -> the option value, else None"""
         from facts import callee_name
@@ -1361,6 +1398,8 @@ class Explorer:
             elif k == 'call' and self.filter_next(st, fr, b, t, cont):
                 return
             elif k == 'call' and self.chain_next(st, fr, b, t, cont):
+                return
+            elif k == 'call' and self.pairs_next(st, fr, b, t, cont):
                 return
             elif k == 'call' and self.std_model(st, fr, b, t, cont):
                 return
@@ -1553,6 +1592,44 @@ def is_straight_line(body):
             b = t['target']
         else:
             return False
+
+
+def consecutive_pairs_source(v):
+    """the collection P when the iterator value v yields exactly the pairs of consecutive elements of P:
+    zip(iter(P), iter(P[1..]))  or  zip(iter(P), skip(iter(P), 1));  None otherwise"""
+    x = strip_upd(v)
+    while x[0] in ('call', 'pcall') and x[1].endswith('into_iter') and len(x[2]) == 1:
+        x = strip_upd(x[2][0])
+    if not (x[0] in ('call', 'pcall') and x[1].endswith('Iterator::zip') and len(x[2]) == 2):
+        return None
+
+    def coll(y):
+        """the collection a plain element iterator runs over (through deref / as_slice / references)"""
+        y = strip_upd(y)
+        while y[0] in ('call', 'pcall') and len(y[2]) == 1 and re.search(r'(IntoIterator>?::into_iter|slice::<impl \[T\]>::iter|Vec::<T(, A)?>::as_slice|as std::ops::Deref>::deref)$', y[1]):
+            y = strip_upd(y[2][0])
+        return noepoch(y)
+
+    first = strip_upd(x[2][0])
+    second = strip_upd(x[2][1])
+    while second[0] in ('call', 'pcall') and second[1].endswith('into_iter') and len(second[2]) == 1:
+        second = strip_upd(second[2][0])
+    p1 = coll(first)
+    p2 = None
+    if second[0] in ('call', 'pcall') and second[1].endswith('Iterator::skip') and len(second[2]) == 2 and is_const(strip_upd(second[2][1])) \
+            and strip_upd(second[2][1])[1] == 1:
+        p2 = coll(second[2][0])
+    else:
+        y = second
+        while y[0] in ('call', 'pcall') and len(y[2]) == 1 and re.search(r'(slice::<impl \[T\]>::iter|IntoIterator>?::into_iter)$', y[1]):
+            y = strip_upd(y[2][0])
+        if y[0] in ('call', 'pcall') and re.search(r'ops::Index<.*>>::index$', y[1]) and len(y[2]) == 2:
+            r_ = strip_upd(y[2][1])
+            if r_[0] == 'agg' and r_[5].endswith('::RangeFrom') and len(r_[4]) == 1 and is_const(strip_upd(r_[4][0])) and strip_upd(r_[4][0])[1] == 1:
+                p2 = coll(y[2][0])
+    if p2 is None or p1 != p2 or p1[0] in ('call', 'pcall'):
+        return None
+    return p1
 
 
 IMPLICIT_BRANCH = re.compile(
